@@ -12,10 +12,12 @@
 
 From Age Require Import Base Bech32.
 
-Definition drop_cr (l : bytes) : bytes :=
-  match rev l with
-  | c :: r => if Byte.eqb c CR then rev r else l
-  | [] => l
+(** dropCR: one trailing CR is dropped (structural; List.rev is quadratic). *)
+Fixpoint drop_cr (l : bytes) : bytes :=
+  match l with
+  | [] => []
+  | [c] => if Byte.eqb c CR then [] else [c]
+  | x :: r => x :: drop_cr r
   end.
 
 Definition scan_lines (text : bytes) : list bytes :=
